@@ -538,7 +538,12 @@ pub fn run(ctx: &Ctx) -> Rep {
     let (r4b6, x4b6) = merge_states(s4b6);
     rep.merge(r4b6);
     let s4b7 = par_subsets::<7, X, _, _>(ctx, unit_stride, mk, |st, c, _| {
-        if drive::max_suit_count(c) >= 6 {
+        // ... and every seven-card hand holding four of a kind (224,848 hands: quads + trips, quads + pair ...)
+        let mut cnt = [0u8; 13];
+        for &x in c.iter() {
+            cnt[model::rank_of(x) as usize] += 1;
+        }
+        if drive::max_suit_count(c) >= 6 || cnt.iter().any(|&k| k == 4) {
             let mut rng = Rng::new(seed, drive::hand_code(c) ^ 0x4B7);
             for _ in 0..8 {
                 let p = drive::permuted(c, &mut rng);
@@ -626,7 +631,7 @@ pub fn run(ctx: &Ctx) -> Rep {
         "(1) all 2^32 words (a 1-in-16 share of the 2^16-word blocks in the checked leg) placed in {} next to distinct real cards, \
          and every word within Hamming distance 2 of a card or blank in every slot of every size; (2) for n=2..7 every set partition of the slots x every assignment of \
          {{card, blank, near-miss, arbitrary}} to the blocks x {} seeded instantiations, and all-card instantiations with each block in turn holding the smallest / largest card, and hands whose non-card words cancel under XOR / addition; (3) all ordered arrays over {{52 cards, blank}} for n in {:?}; \
-         (4) all 2,598,960 valid five-card hands, and every six-/seven-card hand with five/six or more suited cards in 8 seeded slot orders; (5) {} seeded hands per size 5..7. distinct = enumerated cases (1,3,4) + hash-set count of the generated hands (2,5); \
+         (4) all 2,598,960 valid five-card hands, and every six-/seven-card hand with five/six or more suited cards and every seven-card hand holding four of a kind in 8 seeded slot orders; (5) {} seeded hands per size 5..7. distinct = enumerated cases (1,3,4) + hash-set count of the generated hands (2,5); \
          every case is non-trivial (each runs the validity oracle against the crate)",
         if every_slot { "every slot of every size 2..7" } else { "one seeded slot of a Two (and of a Five for 1-in-16 blocks)" },
         k_inst, sizes, n_rand
